@@ -40,8 +40,15 @@ def tpl_lifesite(size, cb, n1, x2, a2, s2, x3, a3, t, _twin=False):
     return _life(size, cb, n1, x2, a2, s2, x3, a3, NOP, 0, t, _twin)
 
 
-def _life(size, cb, n1, x2, a2, s2, x3, a3, x4, a4, t, _twin):
-    w = World("c03.life")
+def tpl_lifei(size, cb, n1, i0, i1, i2, x2, a2, t, _twin=False):
+    """The first three workers to start may finish inside their very first step (0 = block on the gate, 1 = return at
+    once, 2 = raise at once): the whole running -> ended walk, with both callbacks' rules, for a task never suspended."""
+    return _life(size, cb, n1, x2, a2, 0, NOP, 0, NOP, 0, t, _twin, [i0, i1, i2])
+
+
+def _life(size, cb, n1, x2, a2, s2, x3, a3, x4, a4, t, _twin, instant=()):
+    w = World("c03.lifei" if instant else "c03.life")
+    w.instant = list(instant)
     code = 0
     try:
         pool = TaskPool(pool_size=size)
@@ -70,7 +77,10 @@ def _life(size, cb, n1, x2, a2, s2, x3, a3, x4, a4, t, _twin):
         if not code and not w.excluded:
             code = _final(w, pool, cb)
         if _twin and not code and not w.excluded:
-            if any(c[0] == "cancel" for c in w.cb) and any(c[0] == "end" for c in w.cb) and len(w.W) >= 2 \
+            if instant:
+                if sum(1 for r in w.W if r.get("instant")) >= 2 and len(w.W) >= 3:
+                    code = 77
+            elif any(c[0] == "cancel" for c in w.cb) and any(c[0] == "end" for c in w.cb) and len(w.W) >= 2 \
                     and (s2 == 0 or not w.armed.get(site_of(s2))):
                 code = 77
         return code
@@ -200,4 +210,16 @@ def families(tier):
         partsf = parts_product(x2=range(NOPF), x3=range(NOPF + 1))
     fams.append(Family(name="lifeflush", fn="tpl_lifeflush", params=P, pre=pref, parts=partsf,
                        twin_pre=["x2 == 3", "x3 == 7"], twin_args=[2, 3, 2, 3, 0, 7, 0, NOPF, 0, 5]))
+    PI = ["size", "cb", "n1", "i0", "i1", "i2", "x2", "a2", "t"]
+    prei = ["size >= 0", "0 <= cb <= 4", "1 <= n1 <= 3", "0 <= i0 <= 2", "0 <= i1 <= 2", "0 <= i2 <= 2", "i0 + i1 + i2 > 0",
+            "0 <= x2 <= %d" % NOP, "a2 >= -1", "t >= 0"]
+    if not thorough:
+        prei += ["size <= 3", "1 <= cb <= 3", "n1 == 3", "t >= 4", "a2 <= 1", "x2 == 0 or x2 == 3 or x2 == 6 or x2 == %d" % NOP]
+        partsi = parts_product(cb=(1, 3), i0=range(3), i1=range(3))
+    else:
+        prei += ["size <= 4", "a2 <= 2"]
+        partsi = parts_product(cb=range(1, 5), n1=(2, 3), i0=range(3), i1=range(3))
+    fams.append(Family(name="lifei", fn="tpl_lifei", params=PI, pre=prei, parts=partsi,
+                       twin_pre=["cb == 3", "n1 == 3", "i0 == 1", "i1 == 2", "x2 == %d" % NOP],
+                       twin_args=[3, 3, 3, 1, 2, 0, NOP, 0, 5]))
     return fams
